@@ -55,6 +55,7 @@ RULE = ('inject: generated registry contents (chains of 1-3 registries, both '
         'distinct by SHA-1')
 GC_EVERY = 10
 LOW_NT_OK = False
+LEVEL = 'fault_enumeration'
 
 SPEC_ENTRY = ['lookup', 'lookup1', 'lookupAll', 'names', 'subscriptions']
 OBJ_ENTRY = ['queryAdapter', 'adapter_hook', 'queryMultiAdapter',
@@ -1517,6 +1518,24 @@ def run_leak(case, cfg, out):
 # stress
 
 
+def _diag(regs, r, f0, started, finished):
+    """state of the registries at the moment a wrong answer was seen"""
+    lines = ['mutations finished before the call: %d; now started %d, '
+             'finished %d' % (f0, started, finished)]
+    for i, reg in enumerate(regs):
+        L = reg._v_lookup
+        lines.append(
+            'registry %d%s: bases=%r ro=%r generation=%r recorded ro=%r '
+            'generations=%r' % (
+                i, ' (looked up)' if i == r else '',
+                [regs.index(b) for b in reg.__bases__],
+                [regs.index(b) for b in reg.ro], reg._generation,
+                [regs.index(b) for b in getattr(L, '_verify_ro', ()) or ()]
+                if hasattr(L, '_verify_ro') else '?',
+                getattr(L, '_verify_generations', '?')))
+    return '\n'.join(lines)
+
+
 def run_stress(case, cfg, out):
     W = World(case, out)
     keys = []
@@ -1651,16 +1670,18 @@ def run_stress(case, cfg, out):
                             else:
                                 judged[0] += 1
                             if a not in ok:
+                                diag = _diag(regs, keys[i][1], f0,
+                                             started[0], finished[0])
                                 problems.append((
                                     'stress-wrong-' + keys[i][0],
                                     'lookup thread: %s for %r answered %r '
                                     'while at most %d mutation (%r) was in '
                                     'progress; correct answers before/after '
-                                    'it: %r' % (
+                                    'it: %r\n%s' % (
                                         keys[i][0], keys[i][2:], a,
                                         s1 - f0,
                                         seq[f0 % nseq][0] if nseq else None,
-                                        ok)))
+                                        ok, diag)))
                                 return
                         it += 1
                         if not seq and it >= 3:
